@@ -197,26 +197,36 @@ def r2_verbatim_emission(w):
             r.ok(cons, 'text(into_text(clone(node))) only')
         else:
             r.bad(cons, 'verbatim|%s' % last(bs[0].short), '%s does not emit exactly the node\'s own text (a transformer, another node, or extra layout is involved)' % bs[0].short, bs[0].loc())
-    cd = [b for b in core.find('::check_disabled') if b.def_kind != 'Closure']
-    if len(cd) != 1:
-        raise AnchorMissing('check_disabled')
-    res = run_function(w, cd[0], {2: Node('parent', None)}, no_inline=lambda tb: tb.short.startswith('attr::'))
-    good = bool(res)
-    some = 0
-    for result, events, assumed in res or []:
-        e = _disabled_edges(assumed)
-        if e and e[0] is True:
-            some += 1
-            if not (isinstance(result, Agg) and result.variant == 'Some' and isinstance(result.fields[0], Doc)
-                    and [a[0] for a in result.fields[0].atoms] == ['conv'] and 'verbatim' in result.fields[0].atoms[0][1]):
+    # helpers of the form `fn(&self, node) -> Option<Doc>` that test the mark (found by role; when the test is written out in the entries
+    # themselves there is none, and R1 evaluates the entries directly)
+    cd = [b for b in w.fn_bodies(core) if b.def_kind != 'Closure' and not b.short.startswith('attr::')
+          and b.locals[0]['ty']['s'].startswith('std::option::Option<pretty::DocBuilder')
+          and any(DISABLED.search(callee_path(t) or '') or (resolved_id(t) in w.bodies and DISABLED.search(w.bodies[resolved_id(t)].short)) for _, t in b.calls())]
+    for hb in cd:
+        ps = [j for j in range(1, hb.arg_count + 1) if 'SyntaxNode' in hb.locals[j]['ty']['s'] or grammar.ast_type_name(hb.locals[j]['ty'])]
+        cons = {'fn': last(hb.short)}
+        if len(ps) != 1:
+            r.bad(cons, '%s|shape' % last(hb.short), '%s tests the mark but does not take exactly one node' % hb.short, hb.loc())
+            continue
+        res = run_function(w, hb, {ps[0]: Node('parent', None)}, no_inline=lambda tb: tb.short.startswith('attr::'))
+        good = bool(res)
+        some = 0
+        for result, events, assumed in res or []:
+            e = _disabled_edges(assumed)
+            if e and e[0] is True:
+                some += 1
+                if not (isinstance(result, Agg) and result.variant == 'Some' and isinstance(result.fields[0], Doc)
+                        and [a[0] for a in result.fields[0].atoms] == ['conv'] and 'verbatim' in result.fields[0].atoms[0][1]):
+                    good = False
+            elif not (isinstance(result, Agg) and result.variant == 'None'):
                 good = False
-        elif not (isinstance(result, Agg) and result.variant == 'None'):
-            good = False
-    cons = {'fn': 'check_disabled'}
-    if good and some:
-        r.ok(cons, 'Some(verbatim(node)) iff disabled, no wrapper around it')
-    else:
-        r.bad(cons, 'check_disabled|shape', 'check_disabled does not return Some(verbatim text of the same node) exactly on the disabled edge', cd[0].loc())
+        if good and some:
+            r.ok(cons, 'Some(verbatim(node)) iff disabled, no wrapper around it')
+        else:
+            r.bad(cons, '%s|shape' % last(hb.short), '%s does not return Some(verbatim text of the same node) exactly on the disabled edge' % last(hb.short), hb.loc())
+    if not cd:
+        r.note('no Option-returning helper tests the mark: the entries test it themselves (evaluated by R1)')
+        r.floor = 1
     return r
 
 
